@@ -616,7 +616,7 @@ func windowFitRules(r *Report, emit *ssa.Function) ([]sendPoint, bool) {
 		return nil, false
 	}
 	send := sps[0].Instr
-	g := G(emit)
+	_ = G
 	// the two window comparisons
 	isFCS := func(v ssa.Value) bool {
 		c, ok := v.(*ssa.Call)
@@ -634,58 +634,71 @@ func windowFitRules(r *Report, emit *ssa.Function) ([]sendPoint, bool) {
 		fa, ok := ld.X.(*ssa.FieldAddr)
 		return ok && isParamVal(fa.X, emit.Params[0]) && fieldObj(fa).Name() == "windowSize"
 	}
-	for _, cmp := range []struct {
-		name string
-		win  func(ssa.Value) bool
-	}{{"connection window", isConnWin}, {"stream window", isStreamWin}} {
-		ok := false
-		strict := false
-		for _, in := range instrs(emit) {
-			b, isB := in.(*ssa.BinOp)
-			if !isB {
-				continue
-			}
-			// normalise to "size OP window"
-			op := b.Op
-			switch {
-			case isFCS(b.X) && cmp.win(b.Y):
-			case cmp.win(b.X) && isFCS(b.Y):
-				op = map[token.Token]token.Token{token.LSS: token.GTR, token.GTR: token.LSS, token.LEQ: token.GEQ, token.GEQ: token.LEQ}[b.Op]
-			default:
-				continue
-			}
-			var fits func(e condEdge) *ssa.BasicBlock
-			switch op {
-			case token.GTR: // size > window: does not fit
-				fits = func(e condEdge) *ssa.BasicBlock { return e.False }
-			case token.LEQ: // size <= window: fits
-				fits = func(e condEdge) *ssa.BasicBlock { return e.True }
-			case token.GEQ: // size >= window: a frame that exactly fills the window is held back
-				fits = func(e condEdge) *ssa.BasicBlock { return e.False }
-				strict = true
-			case token.LSS:
-				fits = func(e condEdge) *ssa.BasicBlock { return e.True }
-				strict = true
-			default:
-				continue
-			}
-			for _, e := range branchesOn(b) {
-				notFit := e.True
-				if fits(e) == e.True {
-					notFit = e.False
-				}
-				// the does-not-fit edge cannot reach the send in this iteration; the comparison is on every path to the send
-				if g.PathTo(blockStart(notFit), true, func(i ssa.Instruction) bool { return i == ssa.Instruction(b) }, func(i ssa.Instruction) bool { return i == send }) == nil && g.Before(b, send) {
-					ok = true
-				}
-			}
-		}
-		r.Paths++
-		r.Decide("path", "(*M/h2.outputBuffer).emitEligibleFrames: emission guarded by the "+cmp.name, ok, "the send is reached only when flowControlSize() fits", "a frame can be emitted without fitting the "+cmp.name+": the receiver is sent more than it granted", send.Pos())
-		if ok {
-			r.Decide("path", "(*M/h2.outputBuffer).emitEligibleFrames: a frame that exactly fills the "+cmp.name+" is emitted", !strict, "the comparison admits size == window", "the comparison with the "+cmp.name+" excludes size == window: a DATA frame that uses up the remaining credit (and everything queued behind it) is withheld although the receiver granted enough", send.Pos())
+	// evaluated: from the first use of flowControlSize() in the loop body, the walk through the
+	// window comparisons reaches the send exactly when the size fits both windows
+	var first *ssa.Call
+	for _, in := range instrs(emit) {
+		if c, isC := in.(*ssa.Call); isC && isFCS(c) && first == nil {
+			first = c
 		}
 	}
+	if first == nil {
+		r.Undecided("(*M/h2.outputBuffer).emitEligibleFrames: window comparisons", "UNRESOLVED: no flowControlSize() call")
+		return sps, true
+	}
+	// the walk starts where the frame is taken from the queue, so that a test put in front of the
+	// window comparisons (an exemption for some frames) is part of the decision
+	startBlock := first.Block()
+	if recv, isI := first.Call.Value.(ssa.Instruction); isI && recv.Parent() == emit && recv.Block().Dominates(startBlock) && inLoop(recv.Block()) {
+		startBlock = recv.Block()
+	}
+	usesConn, usesStream := false, false
+	okNoOver, okExact, okEval := true, true, true
+	detail := ""
+	for _, size := range []int64{3, 5, 7} {
+		for _, cw := range []int64{5, 9} {
+			for _, sw := range []int64{5, 9} {
+				val := func(v ssa.Value) (int64, bool) {
+					switch {
+					case isFCS(v):
+						return size, true
+					case isConnWin(v):
+						usesConn = true
+						return cw, true
+					case isStreamWin(v):
+						usesStream = true
+						return sw, true
+					}
+					return 0, false
+				}
+				out, okD := decideWith(startBlock, func(v ssa.Value) (bool, bool) {
+					ev := &miniEval{leaf: val}
+					return ev.Bool(v)
+				}, func(i ssa.Instruction) bool { v, isV := i.(ssa.Value); return isV && isFCS(v) })
+				if !okD || out == nil {
+					okEval = false
+					continue
+				}
+				sent := out == send.Block() || (len(out.Succs) == 1 && out.Succs[0] == send.Block())
+				fits := size <= cw && size <= sw
+				if sent && !fits {
+					okNoOver = false
+					detail = fmt.Sprintf("size %d is sent with connection window %d and stream window %d", size, cw, sw)
+				}
+				if !sent && fits {
+					okExact = false
+					detail = fmt.Sprintf("size %d is held back with connection window %d and stream window %d", size, cw, sw)
+				}
+			}
+		}
+	}
+	r.Paths += 12
+	if !okEval {
+		r.Undecided("(*M/h2.outputBuffer).emitEligibleFrames: window comparisons", "the decision between taking a frame from the queue and the send depends on something else than its flow-control size and the two windows (an exemption for some frames?): every queued frame must fit both windows before it is sent")
+		return sps, true
+	}
+	r.Decide("table", "(*M/h2.outputBuffer).emitEligibleFrames: emission guarded by both windows", okNoOver && usesConn && usesStream, "size {3,5,7} x connection window {5,9} x stream window {5,9}: sent only when it fits both", "a frame can be emitted without fitting the connection or the stream window ("+detail+"): the receiver is sent more than it granted", send.Pos())
+	r.Decide("table", "(*M/h2.outputBuffer).emitEligibleFrames: a frame that fits both windows is emitted", okExact, "same grid: sent whenever size <= both windows, size == window included", "a frame that fits is withheld ("+detail+"): a DATA frame that uses up the remaining credit (and everything queued behind it) stays queued although the receiver granted enough", send.Pos())
 	return sps, true
 }
 
